@@ -41,14 +41,42 @@ Proof. intro Ne. destruct e; try (cbn; tauto); try congruence. Qed.
 Lemma flag_kbd k sc pc older d : flag_ok k sc (Exit :: repeat Recur pc ++ Enter :: older) d <-> d = Some false.
 Proof. destruct pc; cbn [repeat app]; apply flag_forced; discriminate. Qed.
 
+(* a DoDoer that is not `always`: its flag is True exactly after it returned by
+   itself (which it does exactly when its deque is empty after a pass), False
+   otherwise; no claim between its Clean and its Exit *)
+Definition nflag_ok (l : list ekind) (d : option bool) : Prop :=
+  match l with
+  | [] => d <> Some true
+  | Exit :: Clean :: _ => d = Some true
+  | Clean :: _ => True
+  | _ => d = Some false
+  end.
+
+Lemma nflag_open e rest d : e <> Exit -> e <> Clean -> (nflag_ok (e :: rest) d <-> d = Some false).
+Proof. intros N1 N2. destruct e; try (cbn; tauto); try congruence. Qed.
+Lemma nflag_run pc older d : nflag_ok (repeat Recur pc ++ Enter :: older) d <-> d = Some false.
+Proof. destruct pc; cbn [repeat app]; apply nflag_open; discriminate. Qed.
+Lemma nflag_forced e rest d : e <> Clean -> (nflag_ok (Exit :: e :: rest) d <-> d = Some false).
+Proof. intro Ne. destruct e; try (cbn; tauto); try congruence. Qed.
+Lemma nflag_false_open e rest : e <> Exit -> nflag_ok (e :: rest) (Some false).
+Proof. intro Ne. destruct e; cbn; auto; congruence. Qed.
+
 Definition xj s (i : id) : Prop :=
   match get D i with
   | Some (FLeaf k sc) =>
     (forall pc, get_gen s i = GSusp pc -> exists n older, pc = S n /\ evs i s = repeat Recur n ++ Enter :: older) /\
     (forall pc, get_gen s i = GRun pc -> exists e rest, evs i s = e :: rest /\ e <> Exit) /\
     flag_ok k sc (evs i s) (get_done s i)
+  | Some (FNest _ false _) =>
+    (forall pc, get_gen s i = GSusp pc -> exists n older, evs i s = repeat Recur n ++ Enter :: older) /\
+    (forall pc, get_gen s i = GRun pc -> exists e rest, evs i s = e :: rest /\ e <> Exit) /\
+    nflag_ok (evs i s) (get_done s i)
   | _ => True
   end.
+
+(* doers the invariant says nothing about: `always` DoDoers and undefined numbers *)
+Definition untracked (i : id) : Prop :=
+  match get D i with Some (FLeaf _ _) | Some (FNest _ false _) => False | _ => True end.
 
 Definition XCore s : Prop := defs s = D /\ forall i, xj s i.
 
@@ -89,20 +117,20 @@ Ltac sa :=
 
 (* anything that is not a leaf *)
 Lemma xcn_only i s s' :
-  (forall k sc, get D i <> Some (FLeaf k sc)) -> XCore s -> defs s' = defs s -> (forall j, j <> i -> same_at j s s') -> XCore s'.
+  untracked i -> XCore s -> defs s' = defs s -> (forall j, j <> i -> same_at j s s') -> XCore s'.
 Proof.
-  intros N L E O. eapply xc_only; [exact L|exact E|exact O|]. unfold xj.
-  destruct (get D i) as [[k sc|t0 al kids]|]; [destruct (N k sc eq_refl)|exact I|exact I].
+  intros N L E O. eapply xc_only; [exact L|exact E|exact O|]. unfold xj. unfold untracked in N.
+  destruct (get D i) as [[k sc|t0 [|] kids]|]; try exact I; destruct N.
 Qed.
-Lemma nest_not_leaf i t0 al kids : get D i = Some (FNest t0 al kids) -> forall k sc, get D i <> Some (FLeaf k sc).
-Proof. intros E k sc X. rewrite E in X. discriminate. Qed.
-Lemma xcn_emit i s k t0 al kids : get D i = Some (FNest t0 al kids) -> XCore s -> XCore (emit s k i).
+Lemma nest_not_leaf i t0 kids : get D i = Some (FNest t0 true kids) -> untracked i.
+Proof. intros E. unfold untracked. now rewrite E. Qed.
+Lemma xcn_emit i s k t0 kids : get D i = Some (FNest t0 true kids) -> XCore s -> XCore (emit s k i).
 Proof. intros N L. eapply xcn_only; [eapply nest_not_leaf; exact N|exact L|reflexivity|sa]. Qed.
-Lemma xcn_gen i s g t0 al kids : get D i = Some (FNest t0 al kids) -> XCore s -> XCore (set_gen s i g).
+Lemma xcn_gen i s g t0 kids : get D i = Some (FNest t0 true kids) -> XCore s -> XCore (set_gen s i g).
 Proof. intros N L. eapply xcn_only; [eapply nest_not_leaf; exact N|exact L|reflexivity|sa]. Qed.
-Lemma xcn_done i s d t0 al kids : get D i = Some (FNest t0 al kids) -> XCore s -> XCore (set_done s i d).
+Lemma xcn_done i s d t0 kids : get D i = Some (FNest t0 true kids) -> XCore s -> XCore (set_done s i d).
 Proof. intros N L. eapply xcn_only; [eapply nest_not_leaf; exact N|exact L|reflexivity|sa]. Qed.
-Lemma xcn_if i s (b : bool) k t0 al kids : get D i = Some (FNest t0 al kids) -> XCore s -> XCore (if b then s else emit s k i).
+Lemma xcn_if i s (b : bool) k t0 kids : get D i = Some (FNest t0 true kids) -> XCore s -> XCore (if b then s else emit s k i).
 Proof. intros N L. destruct b; [exact L|]. eapply xcn_emit; eassumption. Qed.
 
 Lemma susp_shape_x s i k sc pc :
@@ -129,13 +157,13 @@ Lemma xinv_tyme s t : XInv s -> XInv (set_tyme s t). Proof. apply xl; [auto|appl
 Lemma xinv_rlive s v : XInv s -> XInv (set_rlive s v). Proof. apply xl; [auto|apply xc_rlive]. Qed.
 Lemma xinv_top s k i : is_life k = false -> XInv s -> XInv (emit s k i).
 Proof. intro K. apply xl; [auto|now apply xc_top]. Qed.
-Lemma xn_emit i s k t0 al kids : get D i = Some (FNest t0 al kids) -> XInv s -> XInv (emit s k i).
+Lemma xn_emit i s k t0 kids : get D i = Some (FNest t0 true kids) -> XInv s -> XInv (emit s k i).
 Proof. intro N. apply xl; [auto|eapply xcn_emit; exact N]. Qed.
-Lemma xn_gen i s g t0 al kids : get D i = Some (FNest t0 al kids) -> XInv s -> XInv (set_gen s i g).
+Lemma xn_gen i s g t0 kids : get D i = Some (FNest t0 true kids) -> XInv s -> XInv (set_gen s i g).
 Proof. intro N. apply xl; [auto|eapply xcn_gen; exact N]. Qed.
-Lemma xn_done i s d t0 al kids : get D i = Some (FNest t0 al kids) -> XInv s -> XInv (set_done s i d).
+Lemma xn_done i s d t0 kids : get D i = Some (FNest t0 true kids) -> XInv s -> XInv (set_done s i d).
 Proof. intro N. apply xl; [auto|eapply xcn_done; exact N]. Qed.
-Lemma xn_if i s (b : bool) k t0 al kids : get D i = Some (FNest t0 al kids) -> XInv s -> XInv (if b then s else emit s k i).
+Lemma xn_if i s (b : bool) k t0 kids : get D i = Some (FNest t0 true kids) -> XInv s -> XInv (if b then s else emit s k i).
 Proof. intros N L. destruct b; [exact L|]. eapply xn_emit; eassumption. Qed.
 
 (* stickiness of oof through each function (from the frame theorem) *)
@@ -225,6 +253,62 @@ Proof.
   rewrite Ev, Dn. exact Fl.
 Qed.
 
+(* ---------- non-`always` DoDoers ---------- *)
+
+Lemma nest_live i s s' t0 kids e rest :
+  get D i = Some (FNest t0 false kids) -> XCore s -> defs s' = defs s -> (forall j, j <> i -> same_at j s s') ->
+  (forall pc, get_gen s' i = GSusp pc -> exists n older, evs i s' = repeat Recur n ++ Enter :: older) ->
+  evs i s' = e :: rest -> e <> Exit -> nflag_ok (e :: rest) (get_done s' i) -> XCore s'.
+Proof.
+  intros N L E O Sh Ev Ne Fl. eapply xc_only; [exact L|exact E|exact O|]. unfold xj. rewrite N.
+  split; [exact Sh|]. split; [intros pc _; exists e, rest; split; [exact Ev|exact Ne]|]. rewrite Ev. exact Fl.
+Qed.
+
+Lemma nest_ended i s s' t0 kids l :
+  get D i = Some (FNest t0 false kids) -> XCore s -> defs s' = defs s -> (forall j, j <> i -> same_at j s s') ->
+  get_gen s' i = GDone -> evs i s' = l -> nflag_ok l (get_done s' i) -> XCore s'.
+Proof.
+  intros N L E O G Ev Fl. eapply xc_only; [exact L|exact E|exact O|]. unfold xj. rewrite N.
+  split; [intros pc X; rewrite G in X; discriminate|]. split; [intros pc X; rewrite G in X; discriminate|].
+  rewrite Ev. exact Fl.
+Qed.
+
+Lemma nest_flag s i t0 kids : XCore s -> get D i = Some (FNest t0 false kids) -> nflag_ok (evs i s) (get_done s i).
+Proof. intros (_ & A) N. specialize (A i). unfold xj in A. rewrite N in A. apply A. Qed.
+Lemma nest_susp s i t0 kids pc : XCore s -> get D i = Some (FNest t0 false kids) -> get_gen s i = GSusp pc ->
+  exists n older, evs i s = repeat Recur n ++ Enter :: older.
+Proof. intros (_ & A) N G. specialize (A i). unfold xj in A. rewrite N in A. destruct A as (A1 & _). exact (A1 pc G). Qed.
+Lemma nest_run s i t0 kids pc : XCore s -> get D i = Some (FNest t0 false kids) -> get_gen s i = GRun pc ->
+  exists e rest, evs i s = e :: rest /\ e <> Exit.
+Proof. intros (_ & A) N G. specialize (A i). unfold xj in A. rewrite N in A. destruct A as (_ & A2 & _). exact (A2 pc G). Qed.
+
+Lemma nest_open_done s i t0 kids e rest :
+  XCore s -> get D i = Some (FNest t0 false kids) -> evs i s = e :: rest -> e <> Exit -> e <> Clean ->
+  get_done s i = Some false.
+Proof. intros C N Ev N1 N2. pose proof (nest_flag s i t0 kids C N) as Fl. rewrite Ev in Fl. now apply nflag_open in Fl. Qed.
+
+(* the common ending of a DoDoer's generator: exit of its own deque, Exit, done *)
+Lemma nest_finish f s3 i t0 kids e rest :
+  (forall s i, XInv s -> XInv (close_own tk f s i)) ->
+  get D i = Some (FNest t0 false kids) -> XInv s3 ->
+  (XCore s3 -> (exists pc, get_gen s3 i = GRun pc) /\ evs i s3 = e :: rest /\
+               nflag_ok (Exit :: e :: rest) (get_done s3 i)) ->
+  XInv (set_gen (emit (close_own tk f s3 i) Exit i) i GDone).
+Proof.
+  intros Ico N X3 Facts.
+  destruct X3 as [O3|C3].
+  { left. cbn [oof set_gen emit]. eapply steps_oof; [apply close_own_steps|exact O3]. }
+  destruct (Facts C3) as ((pc & G3) & Ev3 & Fl3).
+  destruct (Ico s3 i (or_intror C3)) as [O4|C4]; [left; exact O4|]. right.
+  assert (N4 : noj i s3 (close_own tk f s3 i)).
+  { destruct (framej_all tk i f) as (_ & _ & _ & _ & Fco & _). apply Fco; [exists pc; exact G3|apply noj_refl]. }
+  destruct N4 as (G4 & E4).
+  eapply (nest_ended i (close_own tk f s3 i) _ t0 kids (Exit :: e :: rest)); [exact N|exact C4|reflexivity|sa|apply gen_set_gen_same| |].
+  - rewrite evs_set_gen, evs_emit_same by reflexivity. now rewrite E4, Ev3.
+  - change (get_done (set_gen (emit ?a _ _) _ _) ?j) with (get_done a j).
+    rewrite (closes_done _ _ i (close_own_closes tk f s3 i)). exact Fl3.
+Qed.
+
 Lemma xinv_allf : forall f, xinv_at f.
 Proof.
   induction f as [|f IH].
@@ -265,14 +349,69 @@ Proof.
            eapply (leaf_open i s _ k script e rest); [exact Gi|exact L|reflexivity|sa| |exact Ev|exact Ne|apply get_done_same].
            intros pc G. destruct L as (_ & A). specialize (A i). unfold xj in A. rewrite Gi in A. exact (proj1 A pc G).
       * (* DoDoer *)
-        assert (L0 : XInv (set_done s i (Some false))) by (eapply xn_done; [exact Gi|right; exact L]).
-        destruct (startable s i) eqn:St; cbn [negb] in E; [|fin; exact L0].
-        cbv zeta in E.
-        destruct (enter_own tk f _ i _) as [s2 r0] eqn:Ee.
-        destruct r0; fin; goX Ist Isd Icl Ico Ili Ieo Iel Ief Irp Irl.
+        destruct always.
+        { assert (L0 : XInv (set_done s i (Some false))) by (eapply xn_done; [exact Gi|right; exact L]).
+          destruct (startable s i) eqn:St; cbn [negb] in E; [|fin; exact L0].
+          cbv zeta in E.
+          destruct (enter_own tk f _ i _) as [s2 r0] eqn:Ee.
+          destruct r0; fin; goX Ist Isd Icl Ico Ili Ieo Iel Ief Irp Irl. }
+        destruct (startable s i) eqn:St; cbn [negb] in E.
+        -- (* started: Enter, enter of its own doers, first yield *)
+           cbv zeta in E.
+           set (s1 := emit (set_gen (set_done s i (Some false)) i (GRun 0)) Enter i) in *.
+           assert (L1 : XCore s1).
+           { eapply (nest_live i s s1 t0 kids Enter (evs i s)); [exact Gi|exact L|reflexivity|unfold s1; sa| | |discriminate|].
+             - intros pc G. unfold s1 in G. rewrite gen_emit, gen_set_gen_same in G. discriminate.
+             - unfold s1. rewrite evs_emit_same by reflexivity. reflexivity.
+             - apply nflag_open; [discriminate|discriminate|]. unfold s1.
+               change (get_done (emit (set_gen ?a _ _) _ _) ?j) with (get_done a j). apply get_done_same. }
+           destruct (enter_own tk f s1 i _) as [s2 r0] eqn:Ee.
+           assert (L2 : XInv s2) by (eapply Ieo; [right; exact L1|exact Ee]).
+           assert (N2 : get_gen s2 i = GRun 0 /\ evs i s2 = Enter :: evs i s).
+           { assert (N2 : noj i s1 s2).
+             { destruct (framej_all tk i f) as (_ & _ & _ & _ & _ & _ & Feo & _).
+               eapply Feo; [exists 0%nat; unfold s1; rewrite gen_emit; apply gen_set_gen_same|apply noj_refl|exact Ee]. }
+             destruct N2 as (G2 & E2). split.
+             - rewrite G2. unfold s1. rewrite gen_emit. apply gen_set_gen_same.
+             - rewrite E2. unfold s1. rewrite evs_emit_same by reflexivity. reflexivity. }
+           destruct N2 as (G2 & Ev2).
+           assert (Susp : XInv (set_gen s2 i (GSusp 1))).
+           { revert L2. apply xl; [auto|]. intro C2.
+             eapply (nest_live i s2 _ t0 kids Enter (evs i s)); [exact Gi|exact C2|reflexivity|sa| |rewrite evs_set_gen; exact Ev2|discriminate|].
+             - intros pc _. exists 0%nat, (evs i s). rewrite evs_set_gen. exact Ev2.
+             - apply nflag_open; [discriminate|discriminate|].
+               exact (nest_open_done s2 i t0 kids Enter (evs i s) C2 Gi Ev2 ltac:(discriminate) ltac:(discriminate)). }
+           destruct r0 as [t1| |kbd|]; fin; try exact Susp; try exact L2.
+           destruct kbd.
+           ++ eapply (nest_finish f s2 i t0 kids Enter (evs i s)); [exact Ico|exact Gi|exact L2|].
+              intro C2. split; [exists 0%nat; exact G2|]. split; [exact Ev2|].
+              apply nflag_forced; [discriminate|].
+              exact (nest_open_done s2 i t0 kids Enter (evs i s) C2 Gi Ev2 ltac:(discriminate) ltac:(discriminate)).
+           ++ assert (Ev3 : evs i (emit s2 Abort i) = Abort :: Enter :: evs i s).
+              { rewrite evs_emit_same by reflexivity. now rewrite Ev2. }
+              eapply (nest_finish f (emit s2 Abort i) i t0 kids Abort (Enter :: evs i s)); [exact Ico|exact Gi| |].
+              ** revert L2. apply xl; [auto|]. intro C2.
+                 eapply (nest_live i s2 _ t0 kids Abort (Enter :: evs i s)); [exact Gi|exact C2|reflexivity|sa| |exact Ev3|discriminate|].
+                 --- intros pc G. rewrite gen_emit, G2 in G. discriminate.
+                 --- apply nflag_open; [discriminate|discriminate|].
+                     exact (nest_open_done s2 i t0 kids Enter (evs i s) C2 Gi Ev2 ltac:(discriminate) ltac:(discriminate)).
+              ** intro C3. split; [exists 0%nat; rewrite gen_emit; exact G2|]. split; [exact Ev3|].
+                 apply nflag_forced; [discriminate|].
+                 exact (nest_open_done _ i t0 kids Abort (Enter :: evs i s) C3 Gi Ev3 ltac:(discriminate) ltac:(discriminate)).
+        -- (* already suspended or executing: only the flag is written *)
+           fin. right.
+           assert (Op : exists e rest, evs i s = e :: rest /\ e <> Exit).
+           { unfold startable in St. destruct (get_gen s i) eqn:G; try discriminate.
+             - destruct (nest_susp s i t0 kids pc L Gi G) as (n & older & Ev). rewrite Ev.
+               destruct n; cbn; eexists _, _; (split; [reflexivity|discriminate]).
+             - exact (nest_run s i t0 kids pc L Gi G). }
+           destruct Op as (e & rest & Ev & Ne).
+           eapply (nest_live i s _ t0 kids e rest); [exact Gi|exact L|reflexivity|sa| |exact Ev|exact Ne|].
+           ++ intros pc G. exact (nest_susp s i t0 kids pc L Gi G).
+           ++ rewrite get_done_same. now apply nflag_false_open.
       * (* no such doer *)
         assert (L0 : XCore (set_done s i (Some false))).
-        { eapply xcn_only; [|exact L|reflexivity|sa]. intros k sc X. rewrite Gi in X. discriminate. }
+        { eapply xcn_only; [|exact L|reflexivity|sa]. unfold untracked. now rewrite Gi. }
         destruct (startable s i); cbn [negb] in E; fin; right; exact L0.
     + (* run_step *)
       rename H0 into L, H1 into Lf, H2 into Rn, H3 into Ev, H4 into E.
@@ -354,10 +493,74 @@ Proof.
         -- rewrite gen_emit. apply gen_set_gen_same.
         -- rewrite evs_emit_same by reflexivity. rewrite evs_set_gen, Ev. reflexivity.
       * cbv zeta in E. assert (LL : XInv s) by (right; exact L).
-        destruct (recur_pass tk f _ i) as [s2 r0] eqn:Ee.
-        destruct r0; cbv beta iota zeta in E;
-          try (match type of E with (if ?c then _ else _) = _ => destruct c end); fin;
-          goX Ist Isd Icl Ico Ili Ieo Iel Ief Irp Irl.
+        destruct always.
+        { destruct (recur_pass tk f _ i) as [s2 r0] eqn:Ee.
+          destruct r0; cbv beta iota zeta in E;
+            try (match type of E with (if ?c then _ else _) = _ => destruct c end); fin;
+            goX Ist Isd Icl Ico Ili Ieo Iel Ief Irp Irl. }
+        (* a DoDoer that is not `always` *)
+        destruct (nest_susp s i t0 kids pc L Gi G) as (n & older & Ev).
+        assert (Dn : get_done s i = Some false).
+        { pose proof (nest_flag s i t0 kids L Gi) as Fl. rewrite Ev in Fl. now apply nflag_run in Fl. }
+        set (s1 := emit (set_gen s i (GRun pc)) Recur i) in *.
+        assert (Ev1 : evs i s1 = Recur :: evs i s) by (unfold s1; rewrite evs_emit_same by reflexivity; reflexivity).
+        assert (L1 : XCore s1).
+        { eapply (nest_live i s s1 t0 kids Recur (evs i s)); [exact Gi|exact L|reflexivity|unfold s1; sa| |exact Ev1|discriminate|].
+          - intros pc' G'. unfold s1 in G'. rewrite gen_emit, gen_set_gen_same in G'. discriminate.
+          - apply nflag_open; [discriminate|discriminate|exact Dn]. }
+        destruct (recur_pass tk f s1 i) as [s2 r0] eqn:Ee.
+        assert (L2 : XInv s2) by (eapply Irp; [right; exact L1|exact Ee]).
+        assert (N2 : get_gen s2 i = GRun pc /\ evs i s2 = Recur :: evs i s).
+        { assert (N2 : noj i s1 s2).
+          { destruct (framej_all tk i f) as (_ & _ & _ & _ & _ & _ & _ & _ & _ & Frp & _).
+            eapply Frp; [exists pc; unfold s1; rewrite gen_emit; apply gen_set_gen_same|apply noj_refl|exact Ee]. }
+          destruct N2 as (G2 & E2). split; [rewrite G2; unfold s1; rewrite gen_emit; apply gen_set_gen_same|now rewrite E2]. }
+        destruct N2 as (G2 & Ev2).
+        assert (Raise : forall kbd : bool, XInv (set_gen (emit (close_own tk f (if kbd then s2 else emit s2 Abort i) i) Exit i) i GDone)).
+        { intros [|].
+          - eapply (nest_finish f s2 i t0 kids Recur (evs i s)); [exact Ico|exact Gi|exact L2|].
+            intro C2. split; [exists pc; exact G2|]. split; [exact Ev2|]. apply nflag_forced; [discriminate|].
+            exact (nest_open_done s2 i t0 kids Recur (evs i s) C2 Gi Ev2 ltac:(discriminate) ltac:(discriminate)).
+          - assert (Ev3 : evs i (emit s2 Abort i) = Abort :: Recur :: evs i s).
+            { rewrite evs_emit_same by reflexivity. now rewrite Ev2. }
+            eapply (nest_finish f (emit s2 Abort i) i t0 kids Abort (Recur :: evs i s)); [exact Ico|exact Gi| |].
+            + revert L2. apply xl; [auto|]. intro C2.
+              eapply (nest_live i s2 _ t0 kids Abort (Recur :: evs i s)); [exact Gi|exact C2|reflexivity|sa| |exact Ev3|discriminate|].
+              * intros pc' G'. rewrite gen_emit, G2 in G'. discriminate.
+              * apply nflag_open; [discriminate|discriminate|].
+                exact (nest_open_done s2 i t0 kids Recur (evs i s) C2 Gi Ev2 ltac:(discriminate) ltac:(discriminate)).
+            + intro C3. split; [exists pc; rewrite gen_emit; exact G2|]. split; [exact Ev3|].
+              apply nflag_forced; [discriminate|].
+              exact (nest_open_done _ i t0 kids Abort (Recur :: evs i s) C3 Gi Ev3 ltac:(discriminate) ltac:(discriminate)). }
+        assert (Done : forall e : bool,
+          (if e && negb false
+           then XInv (set_gen (emit (close_own tk f (emit (set_done s2 i (Some e)) Clean i) i) Exit i) i GDone)
+           else XInv (set_gen (set_done s2 i (Some e)) i (GSusp pc)))).
+        { intros [|]; cbn [andb negb].
+          - (* deque empty: done := True, Clean, exit, Exit *)
+            assert (Ev3 : evs i (emit (set_done s2 i (Some true)) Clean i) = Clean :: Recur :: evs i s).
+            { rewrite evs_emit_same by reflexivity. rewrite evs_set_done. now rewrite Ev2. }
+            eapply (nest_finish f _ i t0 kids Clean (Recur :: evs i s)); [exact Ico|exact Gi| |].
+            + revert L2. apply xl; [auto|]. intro C2.
+              eapply (nest_live i s2 _ t0 kids Clean (Recur :: evs i s)); [exact Gi|exact C2|reflexivity|sa| |exact Ev3|discriminate|exact I].
+              intros pc' G'. rewrite gen_emit, gen_set_done, G2 in G'. discriminate.
+            + intro C3. split; [exists pc; rewrite gen_emit, gen_set_done; exact G2|]. split; [exact Ev3|].
+              cbn [nflag_ok]. change (get_done (emit ?a _ _) ?j) with (get_done a j). apply get_done_same.
+          - (* still busy: done := False, suspended again *)
+            revert L2. apply xl; [auto|]. intro C2.
+            assert (Ev3 : evs i (set_gen (set_done s2 i (Some false)) i (GSusp pc)) = Recur :: evs i s).
+            { rewrite evs_set_gen, evs_set_done. exact Ev2. }
+            eapply (nest_live i s2 _ t0 kids Recur (evs i s)); [exact Gi|exact C2|reflexivity|sa| |exact Ev3|discriminate|].
+            + intros pc' _. exists (S n), older. rewrite Ev3, Ev. reflexivity.
+            + apply nflag_open; [discriminate|discriminate|].
+              change (get_done (set_gen ?a _ _) ?j) with (get_done a j). apply get_done_same. }
+        destruct r0 as [t1| |kbd|]; cbv beta iota zeta in E.
+        -- specialize (Done (match deeds (get_sched s2 i) with [] => true | _ => false end)).
+           destruct (_ && _); fin; exact Done.
+        -- specialize (Done (match deeds (get_sched s2 i) with [] => true | _ => false end)).
+           destruct (_ && _); fin; exact Done.
+        -- fin. apply Raise.
+        -- fin. exact L2.
     + (* gen_close *)
       rename H0 into L.
       destruct L as [O|L]; [left; now apply oof_close|].
@@ -371,7 +574,19 @@ Proof.
         right. eapply (leaf_forced i s _ k script); [exact Gi|exact L|reflexivity|sa|apply gen_set_gen_same| | |exact Dn].
         -- rewrite evs_set_gen, evs_emit_same by reflexivity. rewrite evs_emit_same by reflexivity. reflexivity.
         -- apply flag_forced; [discriminate|reflexivity].
-      * cbv zeta. assert (LL : XInv s) by (right; exact L). goX Ist Isd Icl Ico Ili Ieo Iel Ief Irp Irl.
+      * cbv zeta. assert (LL : XInv s) by (right; exact L).
+        destruct always; [goX Ist Isd Icl Ico Ili Ieo Iel Ief Irp Irl|].
+        destruct (nest_susp s i t0 kids pc L Gi G) as (n & older & Ev).
+        assert (Dn : get_done s i = Some false).
+        { pose proof (nest_flag s i t0 kids L Gi) as Fl. rewrite Ev in Fl. now apply nflag_run in Fl. }
+        assert (Ev3 : evs i (emit (set_gen s i (GRun pc)) Cease i) = Cease :: evs i s).
+        { rewrite evs_emit_same by reflexivity. reflexivity. }
+        eapply (nest_finish f _ i t0 kids Cease (evs i s)); [exact Ico|exact Gi| |].
+        -- right. eapply (nest_live i s _ t0 kids Cease (evs i s)); [exact Gi|exact L|reflexivity|sa| |exact Ev3|discriminate|].
+           ++ intros pc' G'. rewrite gen_emit, gen_set_gen_same in G'. discriminate.
+           ++ apply nflag_open; [discriminate|discriminate|exact Dn].
+        -- intro C3. split; [exists pc; rewrite gen_emit; apply gen_set_gen_same|]. split; [exact Ev3|].
+           apply nflag_forced; [discriminate|exact Dn].
     + rewrite close_own_S. cbv zeta. goX Ist Isd Icl Ico Ili Ieo Iel Ief Irp Irl.
     + rewrite close_list_S. brk; goX Ist Isd Icl Ico Ili Ieo Iel Ief Irp Irl.
     + rewrite enter_own_S in *. brk; fin; goX Ist Isd Icl Ico Ili Ieo Iel Ief Irp Irl.
@@ -391,17 +606,21 @@ Implicit Types s : st T.
 Lemma xcore_init (p : prog T) : XCore (p_defs p) (init_st p).
 Proof.
   split; [reflexivity|]. intro i. unfold xj.
-  destruct (get (p_defs p) i) as [[k sc|t0 al kids]|]; try exact I.
-  split; [intros pc G; unfold get_gen, init_st in G; cbn [gens get] in G; discriminate|].
-  split; [intros pc G; unfold get_gen, init_st in G; cbn [gens get] in G; discriminate|].
-  change (evs i (init_st p)) with (@nil ekind). cbn [flag_ok].
-  unfold get_done, init_st; cbn [dones get]. destruct (N.eqb i 0); discriminate.
+  assert (Nd : get_done (init_st p) i <> Some true).
+  { unfold get_done, init_st; cbn [dones get]. destruct (N.eqb i 0); discriminate. }
+  destruct (get (p_defs p) i) as [[k sc|t0 [|] kids]|]; try exact I.
+  - split; [intros pc G; unfold get_gen, init_st in G; cbn [gens get] in G; discriminate|].
+    split; [intros pc G; unfold get_gen, init_st in G; cbn [gens get] in G; discriminate|].
+    change (evs i (init_st p)) with (@nil ekind). exact Nd.
+  - split; [intros pc G; unfold get_gen, init_st in G; cbn [gens get] in G; discriminate|].
+    split; [intros pc G; unfold get_gen, init_st in G; cbn [gens get] in G; discriminate|].
+    change (evs i (init_st p)) with (@nil ekind). exact Nd.
 Qed.
 
 Lemma xinv_root_done D s d : get D 0%N = None -> XInv D s -> XInv D (set_done s 0%N d).
 Proof.
   intro R. apply xl; [auto|]. intro L. eapply (xcn_only D 0%N); [|exact L|reflexivity|].
-  - intros k sc X. rewrite R in X. discriminate.
+  - unfold untracked. now rewrite R.
   - intros j Hj. split; [reflexivity|]. split; [reflexivity|]. now apply get_done_other.
 Qed.
 
@@ -437,21 +656,35 @@ Qed.
 
 (* the exact flag rule holds for every leaf in the final state of every run that
    stayed within its budgets, for programs in which no doer is numbered 0 *)
+Lemma do_run_xinv cycles fuel (p : prog T) :
+  get (p_defs p) 0%N = None -> XInv (p_defs p) (do_run cycles fuel p).
+Proof.
+  intro R. unfold do_run.
+  destruct (enter_own (p_tock p) fuel (init_st p) 0%N (p_doers p)) as [s1 r] eqn:E.
+  assert (L1 : XInv (p_defs p) s1) by (eapply xinv_enter_own; [right; apply xcore_init|exact E]).
+  destruct r as [t| |kb|]; try exact L1.
+  - apply cycle_loop_xinv; [exact R|now apply xinv_rlive].
+  - apply cycle_loop_xinv; [exact R|now apply xinv_rlive].
+  - apply xinv_top; [reflexivity|]. now apply xinv_close_own.
+Qed.
+
 Theorem do_run_flags cycles fuel (p : prog T) :
   get (p_defs p) 0%N = None -> oof (do_run cycles fuel p) = false ->
   forall i k sc, get (p_defs p) i = Some (FLeaf k sc) ->
     flag_ok k sc (evs i (do_run cycles fuel p)) (get_done (do_run cycles fuel p) i).
 Proof.
-  intros R O i k sc Lf.
-  assert (X : XInv (p_defs p) (do_run cycles fuel p)).
-  { unfold do_run.
-    destruct (enter_own (p_tock p) fuel (init_st p) 0%N (p_doers p)) as [s1 r] eqn:E.
-    assert (L1 : XInv (p_defs p) s1) by (eapply xinv_enter_own; [right; apply xcore_init|exact E]).
-    destruct r as [t| |kb|]; try exact L1.
-    - apply cycle_loop_xinv; [exact R|now apply xinv_rlive].
-    - apply cycle_loop_xinv; [exact R|now apply xinv_rlive].
-    - apply xinv_top; [reflexivity|]. now apply xinv_close_own. }
-  destruct X as [X|X]; [congruence|]. now apply leaf_flag with (D := p_defs p).
+  intros R O i k sc Lf. destruct (do_run_xinv cycles fuel p R) as [X|X]; [congruence|].
+  now apply leaf_flag with (D := p_defs p).
+Qed.
+
+(* the same for DoDoers that are not `always` *)
+Theorem do_run_nest_flags cycles fuel (p : prog T) :
+  get (p_defs p) 0%N = None -> oof (do_run cycles fuel p) = false ->
+  forall i t0 kids, get (p_defs p) i = Some (FNest t0 false kids) ->
+    nflag_ok (evs i (do_run cycles fuel p)) (get_done (do_run cycles fuel p) i).
+Proof.
+  intros R O i t0 kids N. destruct (do_run_xinv cycles fuel p R) as [X|X]; [congruence|].
+  now apply nest_flag with (D := p_defs p) (t0 := t0) (kids := kids).
 Qed.
 
 End FlagRun.
